@@ -131,6 +131,9 @@ impl CycleJudge {
 }
 
 pub struct PhysCfg {
+    /// fill the mini stream over several MiniFAT sectors, drain it from the end (so that the in-memory
+    /// MiniFAT is trimmed below a sector boundary), fill again
+    pub mini_churn: bool,
     /// C08: mostly set_len (shrink to unaligned, grow to aligned and unaligned lengths) with full read-backs
     pub setlen_heavy: bool,
     pub cycles: bool,
@@ -167,6 +170,22 @@ pub fn campaign(seed: u64, count: u64, max_ops: u64, cfg: &PhysCfg, ops_path: &s
         let mut model = RefModel::new();
         let mut open: BTreeMap<u32, String> = BTreeMap::new();
         let mut pending: Vec<String> = vec![format!("create {}", version)];
+        if cfg.mini_churn {
+            let per = if version == "3" { 128usize } else { 1024 };
+            // enough small streams for 2-3 MiniFAT sectors (a stream of 4000 B = 63 mini sectors)
+            let n = (per * (2 + r.below(2) as usize)) / 60 + 2 + r.below(3) as usize;
+            for i in 0..n {
+                pending.push(format!("put {} {}", enc(&format!("/m{}", i)), hex(&pattern(3600 + r.below(496) as usize, h * 31 + i as u64))));
+            }
+            // drain from the end, keeping the first `keep` streams
+            let keep = r.below(3) as usize;
+            for i in (keep..n).rev() {
+                pending.push(format!("rm {}", enc(&format!("/m{}", i))));
+            }
+            for i in 0..(n / 2 + 1) {
+                pending.push(format!("put {} {}", enc(&format!("/r{}", i)), hex(&pattern(2000 + r.below(2000) as usize, h * 17 + i as u64))));
+            }
+        }
         let n_ops = 6 + r.below(max_ops);
         let mut done = 0u64;
         let mut hash: u64 = 1469598103934665603;
@@ -280,7 +299,7 @@ pub fn campaign(seed: u64, count: u64, max_ops: u64, cfg: &PhysCfg, ops_path: &s
                 }
             }
             // C02: at a quiescent boundary the bytes alone must reopen to the live state
-            if !dead && observed != "panic" && !model.any_dirty() && (r.chance(1, 5) || done + 1 == n_ops) {
+            if !dead && observed != "panic" && !model.any_dirty() && (r.chance(1, 5) || done + 1 == n_ops || (cfg.mini_churn && r.chance(1, 2))) {
                 *out.hist.entry("c02:boundary-judged".into()).or_insert(0) += 1;
                 if let Some(v) = catch(|| reopen_violation(&mut real)).unwrap_or_else(|m| Some(format!("panic while reopening the bytes: {}", m))) {
                     out.violations.push(format!("history {} (seed {}) step {}: after {}: {}", h, seed, done, short(&line), v));
@@ -391,7 +410,9 @@ pub fn replay(ops_path: &str, impl_path: &str) -> Vec<String> {
 /// expose exactly the logical content that was laid out; then a short history runs on the opened file
 /// (results against the abstract model, reopen oracle at the end).  Images go to `<outdir>/L<k>.cfb`
 /// (for the Raw model and SpecCheck), the mutated ones to `<outdir>/L<k>_after.cfb`.
-pub fn layouts(seed: u64, count: u64, outdir: &str, big: bool) -> Outcome {
+pub fn layouts(seed: u64, count: u64, outdir: &str, big: bool, ops_path: Option<&str>, impl_path: Option<&str>) -> Outcome {
+    let mut ops_out = String::new();
+    let mut impl_out = String::new();
     use crate::layout::*;
     let mut rng = Rng::new(seed);
     let mut out = Outcome { ops: 0, histories: 0, hist: Default::default(), distinct: Default::default(), violations: vec![] };
@@ -438,6 +459,8 @@ pub fn layouts(seed: u64, count: u64, outdir: &str, big: bool) -> Outcome {
         let shared = SharedFile::new(img.clone());
         real.file = Some(crate::backend::ImageSource::Mem(shared.clone()));
         real.comp = CompoundFile::open(crate::backend::Backend::Mem(shared)).ok();
+        writeln!(ops_out, "load {}", path).unwrap();
+        writeln!(impl_out, "ok | {}", tail(&real)).unwrap();
         let pool = ["a", "Zeta", "new1", "new2", "x10", "日本"];
         for step in 0..(4 + r.below(10)) {
             let streams: Vec<String> = model.all_paths().into_iter().filter(|(_, s)| *s).map(|(p, _)| p).collect();
@@ -453,6 +476,8 @@ pub fn layouts(seed: u64, count: u64, outdir: &str, big: bool) -> Outcome {
             };
             let observed = real.exec(&line);
             out.ops += 1;
+            writeln!(ops_out, "{}", line).unwrap();
+            writeln!(impl_out, "{} | {}", observed, catch(|| tail(&real)).unwrap_or_else(|_| "-".into())).unwrap();
             if let Some(exp) = model.apply(&line) {
                 if exp != observed {
                     out.violations.push(format!("layout {} (seed {}): after opening {}: step {}: {} gave {} but the abstract tree model says {}", k, seed, path, step, short(&line), short(&observed), short(&exp)));
@@ -468,6 +493,10 @@ pub fn layouts(seed: u64, count: u64, outdir: &str, big: bool) -> Outcome {
             std::fs::write(format!("{}/L{}_after.cfb", outdir, k), real.image()).unwrap();
         }
         out.histories += 1;
+    }
+    if let (Some(o), Some(i)) = (ops_path, impl_path) {
+        std::fs::write(o, ops_out).unwrap();
+        std::fs::write(i, impl_out).unwrap();
     }
     out
 }
